@@ -129,6 +129,8 @@ def r14_6(ctx: Ctx) -> None:
 
 
 def run(ctx: Ctx) -> None:
+    from . import c08 as _c08
+    _c08.r08_13(ctx, rule="R14.8")  # an archive the parser rejects must never be replaced by a new one
     shared.strict_reads(ctx, "R14.7")
     r14_1(ctx)
     r14_2(ctx)
